@@ -134,7 +134,7 @@ def shard(args):
     key = 0
     for i in range(s, n, nsh):
         r = grammar.Rng(seed * 1000003 + i)
-        kind = r.pick(['fidelity'] * 6 + ['layers', 'layers', 'invalid', 'bomb', 'request'])
+        kind = r.pick(['fidelity'] * 6 + ['layers', 'layers', 'invalid', 'bomb', 'request', 'listed'])
         side = 'req' if kind == 'request' else 'res'
         cfg = {'PERSONALITY': r.randrange(10), 'DUMP': hxb.DUMP_TX, 'LOG_LEVEL': r.pick([-1, 0, 5])}
         payload = gen_payload(r)
@@ -177,6 +177,17 @@ def shard(args):
             expect = stages[max(0, nl - L)]
             ce = ', '.join(HEADER_TOKEN[c] for c in cods)
             tag = 'layers:%s:limit%s' % ('+'.join(cods), limit)
+        elif kind == 'listed':
+            # two different codings, the body coded so that the FIRST listed coding is the outermost one - the order in which the parser
+            # applies its decoders (for the RFC reading, last listed outermost, see the 'layers' cases and KF-C07-mixed-layer-list).
+            # With LZMA in the list the gzip<->deflate restart heuristic cannot paper over a decoder built for the wrong coding.
+            cods = list(r.pick([('lzma', 'gzip'), ('lzma', 'deflate-raw'), ('gzip', 'lzma'), ('deflate-raw', 'lzma'), ('gzip', 'deflate-raw'), ('deflate-raw', 'gzip')]))
+            body = payload
+            for c in reversed(cods):
+                body = encode(r, c, body)
+            cfg['LZMA_LAYERS'] = 2
+            ce = ', '.join(HEADER_TOKEN[c] for c in cods)
+            tag = 'listed:%s' % '+'.join(cods)
         elif kind == 'invalid':
             coding = r.pick(['gzip', 'deflate-raw', 'lzma'])
             # text: random bytes would now and then be a valid raw-deflate prefix, i.e. not "invalid for the coding"
@@ -259,7 +270,7 @@ def shard(args):
                 # A restart on a valid gzip / raw deflate / LZMA body is not that finding.
                 restart_expected = kind == 'invalid' or 'deflate-zlib' in tag
                 attributed = restarted and restart_expected
-                base = {'fidelity': 'payload_mismatch', 'request': 'req_payload_mismatch', 'layers': 'layers_mismatch', 'invalid': 'passthrough_lost_bytes'}[kind]
+                base = {'fidelity': 'payload_mismatch', 'request': 'req_payload_mismatch', 'layers': 'layers_mismatch', 'invalid': 'passthrough_lost_bytes', 'listed': 'listed_order_layers_mismatch'}[kind]
                 k = base + ('@restart_loses_prefix' if attributed else ('@unexpected_restart' if restarted else ''))
                 if kind == 'invalid' and not attributed and (t.get('tx_trace', 0) & (1 << 10)):
                     k = base + '@partial_output_on_error'
